@@ -673,6 +673,7 @@ func facts() map[string]any {
 	for k, v := range shapeFacts(filepath.Join(repoDir(), "middleware/resolver/resolver.go")) {
 		out[k] = v
 	}
+	out["shape_chase_inherits_lineage"] = chaseShape(filepath.Join(repoDir(), "middleware/cache/cache.go"))
 	return out
 }
 
@@ -1081,6 +1082,82 @@ func shapeFacts(path string) map[string]any {
 		out["shape_subquery_stores_cut"] = ok
 	}
 	return out
+}
+
+// chaseShape: in Cache.additionalAnswer (the CNAME/DNAME chase, whose sub-query runs under a
+// forked cut) every branch that lets something of the sub-query's response reach the
+// deriving response — an assignment to msg.Rcode / msg.Answer / msg.Ns, or a call handed
+// both respCname and msg — also calls lineage.inherit(), and the sub-query is obtained
+// together with its lineage.
+func chaseShape(path string) bool {
+	fset := token.NewFileSet()
+	file, err := parser.ParseFile(fset, path, nil, 0)
+	if err != nil {
+		return false
+	}
+	fn := findFunc(file, "additionalAnswer")
+	if fn == nil {
+		return false
+	}
+	withLineage := false
+	ast.Inspect(fn, func(n ast.Node) bool {
+		if as, ok := n.(*ast.AssignStmt); ok && len(as.Lhs) == 3 && exprStr(fset, as.Lhs[0]) == "respCname" && exprStr(fset, as.Lhs[1]) == "lineage" {
+			withLineage = true
+		}
+		return true
+	})
+	consuming, ok := 0, true
+	ast.Inspect(fn, func(n ast.Node) bool {
+		is, isIf := n.(*ast.IfStmt)
+		if !isIf || !strings.Contains(nodeStr(fset, is.Cond), "respCname") {
+			return true
+		}
+		consumes, inherits := false, false
+		for _, st := range is.Body.List {
+			// direct statements of the branch only: nested ifs are visited on their own
+			if _, nested := st.(*ast.IfStmt); nested {
+				continue
+			}
+			ast.Inspect(st, func(m ast.Node) bool {
+				switch v := m.(type) {
+				case *ast.AssignStmt:
+					for _, l := range v.Lhs {
+						if x := exprStr(fset, l); x == "msg.Rcode" || x == "msg.Answer" || x == "msg.Ns" {
+							consumes = true
+						}
+					}
+				case *ast.CallExpr:
+					if exprStr(fset, v.Fun) == "lineage.inherit" {
+						inherits = true
+					}
+					an := argNames(fset, v)
+					if has(an, "respCname") && has(an, "msg") {
+						consumes = true
+					}
+				}
+				return true
+			})
+		}
+		if consumes {
+			consuming++
+			if !inherits {
+				ok = false
+			}
+		}
+		return true
+	})
+	return withLineage && ok && consuming >= 2
+}
+
+func nodeStr(fset *token.FileSet, n ast.Node) string {
+	var b strings.Builder
+	ast.Inspect(n, func(m ast.Node) bool {
+		if id, ok := m.(*ast.Ident); ok {
+			b.WriteString(id.Name + " ")
+		}
+		return true
+	})
+	return b.String()
 }
 
 func main() { vlib.Main(&vlib.Driver{Facts: facts, Exec: exec, Gen: gen}) }
